@@ -365,7 +365,7 @@ pub fn run(ctx: &Ctx) {
     }
     ctx.run_prop(&Headroom, ctx.n(100_000, 2_000_000));
     ctx.assume("leap seconds are excluded from the timestamp helper modules, as the statement says");
-    let n = ctx.n(1_200_000, 30_000_000);
+    let n = ctx.n(1_200_000, 80_000_000);
     ctx.run_prop(&Values, n);
     ctx.run_prop(&TsInt, 2 * n);
     ctx.run_prop(&TsValue, n / 2);
